@@ -1,5 +1,5 @@
 (* Proofs/ArpSpoof.v — proofs about the event-system model of the ARP spoofer (C13). *)
-From PV Require Import Base.Prelude Model.ArpSpoof.
+From PV Require Import Base.Prelude Model.ArpSpoof Spec.ArpSpoof.
 Open Scope N_scope.
 
 (* ---------------------------------------------------------------- *)
@@ -197,3 +197,374 @@ Proof.
   eexists. split; [reflexivity|]. simpl. split; auto.
   unfold hunted. simpl. rewrite hunt_has_app, N.eqb_refl. apply orb_true_r.
 Qed.
+
+(* ---------------------------------------------------------------- *)
+(* receive path = spec, for every state and packet *)
+
+Lemma link_local_zero : link_local 0 = false.
+Proof. reflexivity. Qed.
+
+Theorem rx_spec : forall c s p,
+  step c s (RxArp p) =
+  (s, if sp_is_probe p
+      then (if sp_reject_cond c (offer_of (psmac p) (offers s)) p then [probe_reject c p] else [])
+      else (if sp_asks_router c p && hunted s (psmac p) then [spoof_reply c p] else [])).
+Proof.
+  intros c s p. simpl. unfold rx_arp, classify, sp_is_probe, sp_reject_cond, sp_is_probe, sp_asks_router, hunted, IP4_ZERO.
+  destruct (psip p =? 0) eqn:Es.
+  - assert (Hs : psip p = 0) by lia. rewrite Hs in *. rewrite link_local_zero. simpl.
+    destruct (link_local (ptip p)) eqn:Elt; simpl.
+    + destruct (pop p =? 1), (ptip p =? 0); simpl; try reflexivity;
+        rewrite ?andb_false_r; reflexivity.
+    + destruct (pop p =? 2) eqn:E2.
+      * assert (pop p =? 1 = false) by lia. rewrite H. simpl. reflexivity.
+      * destruct (pop p =? 1) eqn:E1; simpl; [|reflexivity].
+        destruct (0 =? ptip p) eqn:Et.
+        -- assert (ptip p =? 0 = true) by lia. rewrite H. simpl. rewrite ?andb_false_r. reflexivity.
+        -- assert (ptip p =? 0 = false) by lia. rewrite H. simpl.
+           destruct (offer_of (psmac p) (offers s)); [destruct (_ && _)|]; reflexivity.
+  - rewrite !andb_false_r. simpl.
+    destruct (link_local (psip p)) eqn:Els; simpl.
+    + rewrite ?andb_false_r. reflexivity.
+    + destruct (link_local (ptip p)) eqn:Elt; simpl.
+      * rewrite ?andb_false_r. reflexivity.
+      * destruct (pop p =? 2) eqn:E2.
+        -- assert (pop p =? 1 = false) by lia. rewrite H. reflexivity.
+        -- destruct (pop p =? 1) eqn:E1; simpl; [|reflexivity].
+           destruct (psip p =? ptip p) eqn:Est; simpl.
+           ++ rewrite ?andb_false_r. reflexivity.
+           ++ rewrite !andb_true_r. rewrite andb_comm. destruct (_ && _); reflexivity.
+Qed.
+
+(* ---------------------------------------------------------------- *)
+(* invariants along runs *)
+
+Lemma final_app c s a b : final c s (a ++ b) = final c (final c s a) b.
+Proof. revert s. induction a as [|e r IH]; intros s; simpl; auto. Qed.
+
+Lemma final_inv (P : state -> Prop) (ok : event -> bool) c :
+  (forall s e, P s -> ok e = true -> P (fst (step c s e))) ->
+  forall evs s, P s -> forallb ok evs = true -> P (final c s evs).
+Proof.
+  intros Hstep evs. induction evs as [|e r IH]; intros s Hs Hok; simpl in *; auto.
+  apply andb_true_iff in Hok as [H1 H2]. apply IH; auto.
+Qed.
+
+Lemma trace_inv (P : state -> Prop) (ok : event -> bool) c :
+  (forall s e, P s -> ok e = true -> P (fst (step c s e))) ->
+  forall evs s x, P s -> forallb ok evs = true -> In x (trace c s evs) -> P (fst (fst x)).
+Proof.
+  intros Hstep evs. induction evs as [|e r IH]; intros s x Hs Hok Hin; simpl in *; [contradiction|].
+  apply andb_true_iff in Hok as [H1 H2].
+  destruct (step c s e) as [s1 out] eqn:Est. destruct Hin as [Hin|Hin].
+  - subst x. exact Hs.
+  - apply (IH s1 x); auto. specialize (Hstep s e Hs H1). rewrite Est in Hstep. exact Hstep.
+Qed.
+
+(* what each step does to closed / hunt / loops *)
+
+Lemma wake_closed c s i h : closed (fst (wake c s i h)) = closed s.
+Proof.
+  unfold wake. destruct (nth_error (loops s) i) as [lp|]; auto.
+  destruct (alive lp); simpl; auto.
+  destruct (find_hunt_by_ip _ _ _); destruct (closed s) eqn:E; simpl; auto.
+Qed.
+
+Lemma wake_hunt c s i h : hunt (fst (wake c s i h)) = hunt s.
+Proof.
+  unfold wake. destruct (nth_error (loops s) i) as [lp|]; auto.
+  destruct (alive lp); simpl; auto.
+  destruct (find_hunt_by_ip _ _ _); destruct (closed s); simpl; auto.
+Qed.
+
+Lemma rx_state c s p : fst (rx_arp c s p) = s.
+Proof.
+  unfold rx_arp. destruct (classify p); auto.
+  - destruct (_ && _); auto.
+  - destruct (offer_of _ _); auto. destruct (_ && _); auto.
+Qed.
+
+Lemma step_closed c s e : is_close e = false -> closed (fst (step c s e)) = closed s.
+Proof.
+  destruct e; simpl; intros H; try discriminate; auto.
+  - unfold start_hunt. destruct (hunt_has _ _); auto.
+  - apply wake_closed.
+  - rewrite rx_state. auto.
+Qed.
+
+Lemma step_closed_mono c s e : closed s = true -> closed (fst (step c s e)) = true.
+Proof.
+  intros H. destruct (is_close e) eqn:E.
+  - destruct e; try discriminate. reflexivity.
+  - rewrite step_closed; auto.
+Qed.
+
+Lemma step_unhunted c s e m :
+  is_start_of m e = false -> hunted s m = false -> hunted (fst (step c s e)) m = false.
+Proof.
+  unfold hunted. destruct e; simpl; intros H Hh; auto.
+  - unfold start_hunt. destruct (hunt_has (amac a) (hunt s)); simpl; auto.
+    rewrite hunt_has_app, Hh, H. reflexivity.
+  - destruct (N.eq_dec m m0) as [->|Hne].
+    + apply hunt_has_del_same.
+    + rewrite hunt_has_del_other; auto.
+  - rewrite wake_hunt. auto.
+  - rewrite rx_state. auto.
+Qed.
+
+Lemma nth_error_app_l {A} (l : list A) x i y : nth_error l i = Some y -> nth_error (l ++ [x]) i = Some y.
+Proof. intros H. rewrite nth_error_app1; auto. apply nth_error_Some. congruence. Qed.
+
+Lemma nth_error_set_nth_neq {A} (l : list A) i j v : i <> j -> nth_error (set_nth i v l) j = nth_error l j.
+Proof.
+  revert i j. induction l as [|x xs IH]; intros [|i] [|j] H; simpl; auto; try congruence.
+Qed.
+
+Lemma nth_error_set_nth_eq {A} (l : list A) i v x : nth_error l i = Some x -> nth_error (set_nth i v l) i = Some v.
+Proof.
+  revert i. induction l as [|y ys IH]; intros [|i] H; simpl in *; try discriminate; auto.
+Qed.
+
+Lemma kill_other l i j : i <> j -> nth_error (kill i l) j = nth_error l j.
+Proof.
+  intros H. unfold kill. destruct (nth_error l i); auto. apply nth_error_set_nth_neq; auto.
+Qed.
+
+Lemma kill_same l i lp : nth_error l i = Some lp -> nth_error (kill i l) i = Some (mkLoop (laddr lp) false).
+Proof. intros H. unfold kill. rewrite H. eapply nth_error_set_nth_eq; eauto. Qed.
+
+Lemma wake_loops_other c s i h j :
+  i <> j -> nth_error (loops (fst (wake c s i h))) j = nth_error (loops s) j.
+Proof.
+  intros Hne. unfold wake. destruct (nth_error (loops s) i) as [lp|] eqn:E; auto.
+  destruct (alive lp); simpl; auto.
+  destruct (find_hunt_by_ip _ _ _); destruct (closed s); simpl; auto; apply kill_other; auto.
+Qed.
+
+Lemma step_loop_kept c s e i lp :
+  is_wake_of i e = false -> nth_error (loops s) i = Some lp -> nth_error (loops (fst (step c s e))) i = Some lp.
+Proof.
+  destruct e; simpl; intros H Hl; auto.
+  - unfold start_hunt. destruct (hunt_has _ _); simpl; auto. apply nth_error_app_l; auto.
+  - rewrite wake_loops_other; auto. intro. subst. rewrite Nat.eqb_refl in H. discriminate.
+  - rewrite rx_state. auto.
+Qed.
+
+(* a loop that has returned never comes back and never sends *)
+Lemma step_dead_stays c s e i a :
+  loop_is s i a false -> loop_is (fst (step c s e)) i a false.
+Proof.
+  unfold loop_is. intros Hl. destruct (is_wake_of i e) eqn:E.
+  - destruct e; try discriminate. simpl in E. apply Nat.eqb_eq in E. subst i0.
+    simpl. unfold wake. rewrite Hl. simpl. exact Hl.
+  - apply step_loop_kept; auto.
+Qed.
+
+Lemma wake_dead_silent c s i h a : loop_is s i a false -> step c s (Wake i h) = (s, []).
+Proof. unfold loop_is. intros Hl. simpl. unfold wake. rewrite Hl. reflexivity. Qed.
+
+(* ---------------------------------------------------------------- *)
+(* C13_stop_undone *)
+
+Lemma stop_wake_restores c s i a hint :
+  loop_is s i a true -> closed s = false -> hunted s (amac a) = false ->
+  known_C13_shared_ip s i = false ->
+  step c s (Wake i hint) = (set_loops s (kill i (loops s)), [restore c (amac a)]).
+Proof.
+  unfold loop_is. intros Hl Hc Hh Hk. simpl. unfold wake. rewrite Hl. simpl.
+  unfold known_C13_shared_ip in Hk. rewrite Hl in Hk. simpl in Hk. rewrite Hh in Hk. simpl in Hk.
+  assert (Hf : find_hunt_by_ip hint (aip a) (hunt s) = None).
+  { apply find_hunt_by_ip_none. intros e Hin He.
+    assert (existsb (fun e0 => aip e0 =? aip a) (hunt s) = true).
+    { apply existsb_exists. exists e. split; auto. lia. }
+    congruence. }
+  rewrite Hf, Hc. reflexivity.
+Qed.
+
+Definition stop_inv (i : nat) (a : addr) (s : state) : Prop :=
+  loop_is s i a true /\ closed s = false /\ hunted s (amac a) = false.
+
+Definition stop_ok (i : nat) (m : mac) (e : event) : bool :=
+  negb (is_wake_of i e) && negb (is_close e) && negb (is_start_of m e).
+
+Lemma stop_inv_step c i a s e :
+  stop_inv i a s -> stop_ok i (amac a) e = true -> stop_inv i a (fst (step c s e)).
+Proof.
+  unfold stop_inv, stop_ok, loop_is. intros [H1 [H2 H3]] Hok.
+  apply andb_true_iff in Hok as [Hok Hs]. apply andb_true_iff in Hok as [Hw Hcl].
+  apply negb_true_iff in Hw, Hcl, Hs.
+  split; [apply step_loop_kept; auto|]. split; [rewrite step_closed; auto|].
+  apply step_unhunted; auto.
+Qed.
+
+Lemma none_of_and3 i m evs :
+  none_of (is_wake_of i) evs -> none_of is_close evs -> none_of (is_start_of m) evs ->
+  forallb (stop_ok i m) evs = true.
+Proof.
+  unfold none_of, stop_ok. induction evs as [|e r IH]; simpl; auto.
+  intros H1 H2 H3. apply andb_true_iff in H1 as [A1 B1]. apply andb_true_iff in H2 as [A2 B2].
+  apply andb_true_iff in H3 as [A3 B3]. rewrite A1, A2, A3. simpl. auto.
+Qed.
+
+Theorem stop_undone_partial : forall c s0 a i mid hint post,
+  cfg_ok c ->
+  loop_is s0 i a true -> closed s0 = false ->
+  none_of (is_wake_of i) mid -> none_of is_close mid -> none_of (is_start_of (amac a)) mid ->
+  none_of (is_start_of (amac a)) post ->
+  let s1 := final c s0 (StopHunt (amac a) :: mid) in
+  let s2 := set_loops s1 (kill i (loops s1)) in
+  known_C13_shared_ip s1 i = false ->
+  step c s1 (Wake i hint) = (s2, [restore c (amac a)]) /\
+  loop_is s2 i a false /\
+  forall s e out f, In (s, e, out) (trace c s2 post) -> In f out -> forged c f = true ->
+    known_C13_probe_router c s e = false -> fedst f <> amac a.
+Proof.
+  intros c s0 a i mid hint post Hc Hl Hcl Hw Hclose Hst Hpost s1 s2 Hk.
+  assert (Hinv : stop_inv i a s1).
+  { unfold s1. simpl. apply (final_inv (stop_inv i a) (stop_ok i (amac a)) c).
+    - intros s e. apply stop_inv_step.
+    - unfold stop_inv, loop_is, hunted. simpl. split; auto. split; auto. apply hunt_has_del_same.
+    - apply none_of_and3; auto. }
+  destruct Hinv as [I1 [I2 I3]].
+  split; [apply stop_wake_restores; auto|].
+  split; [unfold s2, loop_is; simpl; apply (kill_same _ _ _ I1)|].
+  intros s e out f Hin Hf Hfo Hkn Heq.
+  assert (Hun : hunted s (amac a) = false).
+  { apply (trace_inv (fun s => hunted s (amac a) = false) (fun e => negb (is_start_of (amac a) e)) c)
+      with (evs := post) (s := s2) (x := (s, e, out)).
+    - intros s' e' Hs' He'. apply step_unhunted; auto. apply negb_true_iff in He'. exact He'.
+    - exact I3.
+    - exact Hpost.
+    - exact Hin. }
+  assert (Hh : hunted s (fedst f) = true).
+  { apply trace_in in Hin as [s' Hs']. simpl in Hs'. eapply confined_step; eauto. }
+  rewrite Heq in Hh. congruence.
+Qed.
+
+(* the full statement (without the K2 hypothesis) is false of the code *)
+Definition wit_m2 : mac := 2199023255554.
+Definition wit_shared_pre : list event :=
+  [StartHunt (mkAddr wit_m1 3232235522); Wake 0 wit_m1;
+   StartHunt (mkAddr wit_m2 3232235522); Wake 1 wit_m2].
+
+Theorem stop_undone_refuted :
+  exists c pre a i mid hint,
+    cfg_ok c /\
+    let s0 := final c init_state pre in
+    loop_is s0 i a true /\ closed s0 = false /\
+    none_of (is_wake_of i) mid /\ none_of is_close mid /\ none_of (is_start_of (amac a)) mid /\
+    let s1 := final c s0 (StopHunt (amac a) :: mid) in
+    (* the stopped host's loop does not restore: it sends a forged announcement to the other MAC and keeps running *)
+    step c s1 (Wake i hint) = (s1, [announce c wit_m2]) /\ loop_is s1 i a true /\ hunted s1 (amac a) = false.
+Proof.
+  exists wit_cfg, wit_shared_pre, (mkAddr wit_m1 3232235522), 0%nat, [], 0.
+  split; [unfold cfg_ok; simpl; lia|]. vm_compute. repeat split; reflexivity.
+Qed.
+
+(* non-vacuity of stop_undone_partial: a concrete run where every hypothesis holds *)
+Example stop_undone_nonvacuous :
+  let c := wit_cfg in
+  let a := mkAddr wit_m1 3232235522 in
+  let s0 := final c init_state [StartHunt a; Wake 0 wit_m1; StartHunt (mkAddr wit_m2 3232235523); Wake 1 wit_m2] in
+  let mid := [RxArp (mkPkt 1 wit_m1 wit_m1 3232235522 0 3232235531); Wake 1 wit_m2] in
+  loop_is s0 0 a true /\ closed s0 = false /\
+  none_of (is_wake_of 0) mid /\ none_of is_close mid /\ none_of (is_start_of (amac a)) mid /\
+  known_C13_shared_ip (final c s0 (StopHunt (amac a) :: mid)) 0 = false /\
+  outputs c s0 (StopHunt (amac a) :: mid ++ [Wake 0 0; Wake 0 0; Wake 1 wit_m2]) =
+    [[]; []; [announce c wit_m2]; [restore c wit_m1]; []; [announce c wit_m2]].
+Proof. vm_compute. repeat split; reflexivity. Qed.
+
+(* ---------------------------------------------------------------- *)
+(* C13_close_stops *)
+
+Theorem close_wake_silent : forall c s i hint,
+  closed s = true ->
+  snd (step c s (Wake i hint)) = [] /\
+  forall lp, nth_error (loops (fst (step c s (Wake i hint)))) i = Some lp -> alive lp = false.
+Proof.
+  intros c s i hint Hc. simpl. unfold wake.
+  destruct (nth_error (loops s) i) as [lp|] eqn:Hl.
+  - destruct (alive lp) eqn:Ha; simpl.
+    + destruct (find_hunt_by_ip _ _ _); rewrite Hc; simpl; (split; [reflexivity|]);
+        intros lp' H; simpl in H; rewrite (kill_same _ _ _ Hl) in H; inversion H; reflexivity.
+    + split; auto. intros lp' H. simpl in H. rewrite Hl in H. inversion H; subst. auto.
+  - split; auto. intros lp' H. simpl in H. rewrite Hl in H. discriminate.
+Qed.
+
+Lemma closed_after_close c s pre : closed (final c s (pre ++ [Close])) = true.
+Proof. rewrite final_app. reflexivity. Qed.
+
+Lemma closed_along c s evs x : closed s = true -> In x (trace c s evs) -> closed (fst (fst x)) = true.
+Proof.
+  intros Hc Hin.
+  apply (trace_inv (fun s => closed s = true) (fun _ => true) c) with (evs := evs) (s := s); auto.
+  - intros s' e Hs _. apply step_closed_mono; auto.
+  - apply forallb_forall. auto.
+Qed.
+
+(* every run, every Wake after a Close: silent, and that loop has returned *)
+Theorem close_stops_loops : forall c pre post s i hint out,
+  In (s, Wake i hint, out) (trace c (final c init_state (pre ++ [Close])) post) ->
+  out = [] /\
+  forall lp, nth_error (loops (fst (step c s (Wake i hint)))) i = Some lp -> alive lp = false.
+Proof.
+  intros c pre post s i hint out Hin.
+  assert (Hc : closed s = true).
+  { apply (closed_along c (final c init_state (pre ++ [Close])) post (s, Wake i hint, out)); auto. apply closed_after_close. }
+  destruct (close_wake_silent c s i hint Hc) as [H1 H2].
+  apply trace_in in Hin as [s' Hs]. cbn [fst snd] in Hs. split; auto.
+  rewrite Hs in H1. exact H1.
+Qed.
+
+(* full strength: after Close NO forged frame is emitted by any event. False of the code (K3). *)
+Theorem close_stops_refuted :
+  exists c pre post s e out f,
+    cfg_ok c /\ In (s, e, out) (trace c (final c init_state (pre ++ [Close])) post) /\
+    In f out /\ forged c f = true.
+Proof.
+  exists wit_cfg, [StartHunt (mkAddr wit_m1 3232235522); Wake 0 wit_m1],
+    [Wake 0 0; RxArp (mkPkt 1 wit_m1 wit_m1 3232235522 0 3232235531)].
+  eexists; eexists; eexists; eexists.
+  split; [unfold cfg_ok; simpl; lia|].
+  split; [vm_compute; right; left; reflexivity|].
+  split; [left; reflexivity|]. vm_compute. reflexivity.
+Qed.
+
+Lemma closed_forged_known c s e f :
+  closed s = true -> In f (snd (step c s e)) -> forged c f = true ->
+  known_C13_reply_after_close c s e = true.
+Proof.
+  intros Hc Hin Hf. destruct e; simpl in Hin; try contradiction.
+  - unfold start_hunt in Hin. destruct (hunt_has _ _); simpl in Hin; contradiction.
+  - destruct (close_wake_silent c s i hint Hc) as [H1 _]. simpl in H1. rewrite H1 in Hin. contradiction.
+  - simpl. rewrite Hc. simpl. apply existsb_exists. exists f. auto.
+Qed.
+
+Theorem close_stops_partial : forall c pre post s e out f,
+  In (s, e, out) (trace c (final c init_state (pre ++ [Close])) post) ->
+  In f out -> forged c f = true ->
+  known_C13_reply_after_close c s e = true.
+Proof.
+  intros c pre post s e out f Hin Hf Hfo.
+  assert (Hc : closed s = true).
+  { apply (closed_along c (final c init_state (pre ++ [Close])) post (s, e, out)); auto. apply closed_after_close. }
+  apply trace_in in Hin as [s' Hs]. cbn [fst snd] in Hs.
+  apply closed_forged_known with (f := f); auto. rewrite Hs. exact Hf.
+Qed.
+
+(* what K3 is, spelled out: the event is a received packet on a closed handler whose answer is forged *)
+Lemma known_after_close_shape c s e :
+  known_C13_reply_after_close c s e = true ->
+  exists p, e = RxArp p /\ closed s = true /\ existsb (forged c) (snd (step c s e)) = true.
+Proof.
+  destruct e; simpl; try discriminate. intros H. apply andb_true_iff in H as [H1 H2].
+  exists p. auto.
+Qed.
+
+Example close_stops_nonvacuous :
+  let c := wit_cfg in
+  outputs c init_state [StartHunt (mkAddr wit_m1 3232235522); Wake 0 wit_m1; Close; Wake 0 0; Wake 0 0] =
+    [[]; [announce c wit_m1]; []; []; []] /\
+  loop_is (final c init_state [StartHunt (mkAddr wit_m1 3232235522); Wake 0 wit_m1; Close; Wake 0 0]) 0
+          (mkAddr wit_m1 3232235522) false.
+Proof. vm_compute. split; reflexivity. Qed.
